@@ -208,7 +208,7 @@ func checkC10repo(c *Ctx) {
 		"with -tiny, call positions still get a (hashed) file name: runtime.Caller and traces are not blank")
 
 	// R10.2 (repo side): stripRuntime for every runtime file under flagTiny, validation after the loop
-	c.Rule("R10.2", "strip rules run for every runtime file under -tiny and the required strips are validated and exist", 4)
+	c.Rule("R10.2", "strip rules run for every runtime file under -tiny and the required strips are validated and exist", 2)
 	tc := w.Fn("(*transformer).transformCompile")
 	okStrip, okValidate := false, false
 	if tc != nil {
